@@ -156,7 +156,7 @@ theorem nsPlain_none_of_not_mem (t : Tabs) (st : SM.St) (q : Path) (x : String) 
 theorem sameNs_sound (t : Tabs) (st st' : SM.St) (q : Path) (h : sameNs t st st' q = true) :
     nsAt t st' q = nsAt t st q := by
   funext x
-  cases hq : qualOf q x with
+  cases hq : qualOf t q x with
   | some e => unfold nsAt; rw [hq]
   | none =>
     by_cases hx : x ∈ nsNames st q ++ nsNames st' q ++ st.globals ++ st'.globals
